@@ -633,6 +633,8 @@ fn gen_case(rng: &mut Rng) -> Case {
 // ------------------------------------------------------------------------------------------------
 // execution + oracle
 
+static NAIVE: std::sync::atomic::AtomicBool = std::sync::atomic::AtomicBool::new(false);
+
 struct Exec {
     records: Vec<Rec>,
     /// "ok:<status>" | "err:<Kind>" | "panic"
@@ -655,6 +657,39 @@ fn execute(c: &Case) -> Exec {
     let m2 = mock.clone();
     let asynch = c.asynch;
     let allow_redirects = c.allow_redirects;
+    if NAIVE.load(std::sync::atomic::Ordering::Relaxed) {
+        // monitor self-test only: a follower with no protections at all, to show the oracle fires
+        let mut req = req;
+        let mut outcome = String::from("err:naive-limit");
+        for _ in 0..20 {
+            let (uri, method, headers, body) = (req.uri().clone(), req.method().clone(), req.headers().clone(), req.body().clone());
+            let resp = match c2pa::http::SyncHttpResolver::http_resolve(&m2, req) {
+                Ok(r) => r,
+                Err(_) => break,
+            };
+            let loc = resp.headers().get("location").and_then(|v| v.to_str().ok()).map(|s| s.to_string());
+            let next = match (resp.status().is_redirection(), loc) {
+                (true, Some(l)) => url::Url::parse(&uri.to_string()).and_then(|b| b.join(&l)).ok().and_then(|u| u.as_str().parse::<c2pa::http::http::Uri>().ok()),
+                _ => {
+                    outcome = format!("ok:{}", resp.status().as_u16());
+                    break;
+                }
+            };
+            let Some(next) = next else {
+                outcome = "err:naive-unparsable".into();
+                break;
+            };
+            let mut b = Request::builder().method(method).uri(next);
+            for (k, v) in headers.iter() {
+                b = b.header(k, v);
+            }
+            req = match b.body(body) {
+                Ok(r) => r,
+                Err(_) => break,
+            };
+        }
+        return Exec { records: mock.records(), outcome, built: true };
+    }
     let r = report::catch_sdk(move || {
         if asynch {
             let stack = verif_hooks::async_resolver_stack(m2, allow, allow_redirects);
@@ -882,6 +917,16 @@ fn directed() -> Vec<Case> {
         ("foo://127.0.0.1/", "loopback"),
         ("foo://0x7f.1/", "loopback"),
         ("foo://LOCALHOST/", "localhost"),
+        ("foo://api.LocalHost.:80/", "localhost"),
+        ("foo://127.0.0.1./", "loopback"),
+        ("foo://0177.0.0.1/", "loopback"),
+        ("foo://2130706433/", "loopback"),
+        ("foo://127.1/", "loopback"),
+        ("foo://[::ffff:127.0.0.1]/", "loopback"),
+        ("localhost:80", "localhost"),
+        ("http://lo%C2%ADcalhost/", "localhost"),
+        ("http://127%E3%80%821/", "loopback"),
+        ("http://%EF%BC%91%EF%BC%92%EF%BC%97.0.0.1/", "loopback"),
     ];
     for (i, (loc, class)) in internal.iter().enumerate() {
         // as the first hop and after one public hop
@@ -919,6 +964,40 @@ fn main() {
         "hop 0 (the caller's own URI) is never judged, it may name an internal host by design".into(),
     ];
 
+    // development aid: `c27 --probe <location>...` shows how one Location fares (one hop, sync)
+    if let Some(i) = std::env::args().position(|a| a == "--probe") {
+        for loc in std::env::args().skip(i + 1) {
+            let c = Case { kind: "attack".into(), asynch: false, allow_redirects: true, with_allow_all_list: false, start: "https://origin.example.com/start".into(), method: "GET".into(), body_len: 0, headers: vec![], hops: vec![Hop { status: 302, location_hex: hex::encode(&loc), location: loc.clone(), intent: Intent::default() }] };
+            let e = execute(&c);
+            let j = judge(&c, &e);
+            let joined = url::Url::parse(&c.start).and_then(|b| b.join(&loc)).map(|u| u.to_string());
+            println!("{loc:?}: url-join={joined:?} outcome={} recorded={:?} violations={:?}", e.outcome, e.records.iter().map(|r| r.uri.clone()).collect::<Vec<_>>(), j.violations.iter().map(|v| v.0.clone()).collect::<Vec<_>>());
+        }
+        return;
+    }
+    // monitor self-test: `c27 --selftest-naive` runs the workload against an unprotected follower and
+    // prints the distinct signatures the oracle raises (no evidence file is written, exit code 3)
+    if std::env::args().any(|a| a == "--selftest-naive") {
+        NAIVE.store(true, std::sync::atomic::Ordering::Relaxed);
+        let mut cases = directed();
+        let mut rng = Rng::new(run.seed, "c27");
+        for _ in 0..50_000 {
+            cases.push(gen_case(&mut rng));
+        }
+        let res = par::par_map(cases.len(), |i| judge(&cases[i], &execute(&cases[i])).violations);
+        let mut sigs: BTreeMap<String, u64> = BTreeMap::new();
+        for v in res {
+            for (s, _) in v {
+                *sigs.entry(s).or_insert(0) += 1;
+            }
+        }
+        let mut by_class: BTreeMap<String, u64> = BTreeMap::new();
+        for (s, n) in &sigs {
+            *by_class.entry(s.split('|').next().unwrap_or("").to_string()).or_insert(0) += n;
+        }
+        println!("selftest-naive: {} distinct signatures; by first field: {:?}", sigs.len(), by_class);
+        std::process::exit(3);
+    }
     if let Some(p) = run.replay.clone() {
         let v: serde_json::Value = serde_json::from_slice(&std::fs::read(&p).expect("replay file")).expect("json");
         let c: Case = serde_json::from_value(v["witness"]["case"].clone()).expect("case");
@@ -931,7 +1010,7 @@ fn main() {
 
     let mut cases = directed();
     let n_directed = cases.len();
-    let n_random = run.tier.pick(150_000, 5_000_000);
+    let n_random = run.tier.pick(300_000, 6_000_000);
     let mut rng = Rng::new(run.seed, "c27");
     for _ in 0..n_random {
         cases.push(gen_case(&mut rng));
